@@ -12,8 +12,17 @@ then not compared, only counted).
 """
 
 
+UNSPEC_SEEN = [None]
+
+
 class Unspec(Exception):
-    """the statements do not define this behaviour"""
+    """the statements do not define this behaviour; sticky: once raised in a
+    run the whole run is undefined even if a handler or a finally part
+    replaces the exception"""
+
+    def __init__(self, msg=""):
+        super().__init__(msg)
+        UNSPEC_SEEN[0] = msg or "unspecified"
 
 
 class LangError(Exception):
@@ -81,6 +90,13 @@ class Closure:
         self.params = params      # [(name, default|None, is_rest)]
         self.body = body
         self.env = env
+        self.name = name
+
+
+class Opaque:
+    """a host object the programs only pass around (stdout)"""
+
+    def __init__(self, name):
         self.name = name
 
 
@@ -173,6 +189,8 @@ def kind(v):
         return "object"
     if isinstance(v, (Closure, Builtin)):
         return "func"
+    if isinstance(v, Opaque):
+        return "opaque"
     if isinstance(v, tuple) and v and v[0] in ("mod", "fmod"):
         raise Unspec("remainder with a negative operand used as operand")
     raise TypeError(v)
@@ -205,7 +223,7 @@ def equal(a, b):
             if not f or not equal(v, w):
                 return False
         return True
-    if ka in ("object", "func"):
+    if ka in ("object", "func", "opaque"):
         return a is b
     raise TypeError(a)
 
@@ -255,6 +273,8 @@ def plain(v):
                               key=repr))
     if k == "object":
         return ("obj", [(n, plain(x)) for n, x in v.members.items()])
+    if k == "opaque":
+        return ("other", v.name)
     return ("other", "FuncLambda")
 
 
@@ -397,6 +417,7 @@ class Machine:
         self.glob = Env()
         for name, fn in BUILTINS.items():
             self.glob.vars[name] = Builtin(name, fn)
+        self.glob.vars["stdout"] = Opaque("ValueOutput")
 
     def tick(self):
         self.fuel -= 1
@@ -406,6 +427,13 @@ class Machine:
     def run(self, prog):
         """-> ('value', plain) | ('rt', plain error value) | ('unspec', why)
         with the log in self.log"""
+        UNSPEC_SEEN[0] = None
+        r = self._run(prog)
+        if UNSPEC_SEEN[0] is not None:
+            return ("unspec", UNSPEC_SEEN[0])
+        return r
+
+    def _run(self, prog):
         try:
             try:
                 v = self.ev(prog, self.glob)
